@@ -392,11 +392,20 @@ class Executor:
             return copy.deepcopy(self._const_cache[path])
         if "::promoted[" in path:
             cands = []
+            pm = re.search(r"::promoted\[(\d+)\]$", path)
+            own = frame.fn.name + f"::promoted[{pm.group(1)}]" if pm else None
+            if own:
+                for key, d in self.dumps.items():
+                    for f in d.functions.get(own, []):
+                        cands.append((key, f))
+                if cands:
+                    path = own
             base = frame.fn.name
             # promoted constants are named after the *printed* function name
-            for key, d in self.dumps.items():
-                for f in d.functions.get(path, []):
-                    cands.append((key, f))
+            if not cands:
+                for key, d in self.dumps.items():
+                    for f in d.functions.get(path, []):
+                        cands.append((key, f))
             if not cands:
                 cands = self.lookup_fn(path)
         else:
@@ -409,6 +418,8 @@ class Executor:
             val = self.eval_const_body(f, frame.tymap)
             self._const_cache[path] = val
             return copy.deepcopy(val)
+        if re.fullmatch(r"[A-Za-z_0-9:<>, ]+ \{\{.*\}\}", text_s):
+            return Opaque("const " + text_s.split(" {{")[0].split("::")[-1])
         # unit-like struct constant (e.g. `const CmpLessThan`)
         if re.fullmatch(r"[A-Za-z_0-9:<>, ]+", text_s) and text_s.split("::")[-1][:1].isupper():
             return Agg("struct", [], name=_strip_generics(text_s).split("::")[-1])
@@ -438,6 +449,10 @@ class Executor:
                 v = self.read_loc(loc)
                 if isinstance(v, Ref):
                     loc = Loc(v.cell, v.path, v.window, v.is_str)
+                elif isinstance(v, Havoc):
+                    if "*" not in v.fields:
+                        v.fields["*"] = Cell(Havoc("*" + v.ty, v.name + ".*"))
+                    loc = Loc(v.fields["*"])
                 else:
                     raise Unsupported(f"deref of non-reference {v!r} in {place!r} ({frame.name})")
             elif k == "field":
@@ -592,6 +607,8 @@ class Executor:
                     return a
                 raise Unsupported("unsize of " + repr(a))
             if ckind in ("PtrToPtr", "PointerCoercion(MutToConstPointer, Implicit)", "PointerCoercion(MutToConstPointer, AsCast)") or ckind.startswith("PointerCoercion(MutToConstPointer"):
+                return a
+            if isinstance(a, Havoc) and (ckind in ("Transmute", "PtrToPtr") or ckind.startswith("PointerCoercion")):
                 return a
             if ckind == "Transmute":
                 if isinstance(a, I) and to_ty in INT_W and INT_W[to_ty] == a.w:
